@@ -2,7 +2,9 @@
 // /repo/cameleon/src/camera.rs driven over a recording fake DeviceControl + PayloadStream.
 //
 // One case per stdin line:
-//   cam <n> <call>{n} <m> (<call index> <op index> <fault class>){m}
+//   cam  <n> <call>{n} <m> (<call index> <op index> <fault class>){m}     Camera<FakeCtrl, FakeStrm, DefaultGenApiCtxt>
+//   cams <n> <call>{n} <m> (<call index> <op index> <fault class>){m}     Camera<FakeCtrl, FakeStrm, SharedDefaultGenApiCtxt>
+//        (the sharable context: node store / value context behind Arc / Arc<Mutex>; same calls, same output)
 // calls:  0 open | 3 stop_streaming | 4 close | 5 params access (params_ctxt + TLParamsLocked.value)
 //         10+cap start_streaming(cap) | 20+v load_context, the device serves XML variant v
 //         v = t + 3*s + 9*p with t/s/p in {0 good, 1 missing, 2 wrong interface} for TLParamsLocked /
@@ -15,6 +17,12 @@
 //         50 load_context, TLParamsLocked is a HOST-side variable (<Integer><Value>0</Value><Min>0</Min><Max>1</Max>),
 //            AcquisitionStart <CommandValue>1</CommandValue>, AcquisitionStop <CommandValue>0</CommandValue>
 //         51 load_context, conforming (TLParamsLocked backed by its register), AcquisitionStop <CommandValue>0</CommandValue>
+//         52 load_context, conforming, TLParamsLocked is declared as <MaskedIntReg> (LSB 0 / MSB 0 of the 4-byte register at
+//            0x1000 whose other bits belong to another feature): set_value is a read-modify-write, the READ of the old
+//            register value (operation / effect 15, served from the cache when the register is cached) precedes the write
+//         81 the APPLICATION takes a second handle of the camera's context (`camera.ctxt.clone()`) and keeps it;
+//         82 it drops the handles it keeps.  No camera method is called.  (Only the sharable context can be cloned;
+//            with `cam` lines the two calls do nothing.)
 //         70+v (v = 0..9) params write: params_ctxt, UserVar.set_value(v)   (every description that parses defines
 //            UserVar = <Integer><Value>1</Value></Integer>, a variable of the context: no device access)
 //         60+k (k = 0..3) bank access: params_ctxt, BankSelector.set_value(k), BankReg.value()   (every
@@ -22,7 +30,8 @@
 //            4 bytes, WriteThrough: one cache block per slot); the value read is the call's <value>
 //         1000 + 256*k + v (k = 0..5, v = 0..255): the ENVIRONMENT: word k of the device's own memory at 0x2000 becomes
 //            v (k = 0..3: bank slot k, behind the host's cache; k = 4 / 5: the availability status of AcquisitionStart /
-//            AcquisitionStop); no camera method is called, nothing is logged
+//            AcquisitionStop; k = 6: the bits 1..7 of the TLParamsLocked register, which belong to another feature:
+//            they become v & 0xFE; they exist only while the description loaded last is 52); no camera method is called, nothing is logged
 // failure plan: the <op index>-th fallible fake operation (0-based, counted per call, in execution
 // order; EVERY invocation of a fake method counts, so a repeated access is a second operation) of
 // call <call index> returns an error of the given fault class WITHOUT having any effect.
@@ -40,7 +49,8 @@
 //      16 GenApiError other than Device | 100+k ControlError of class k | 200+k StreamError of class k |
 //      300+k GenApiError::Device carrying a ControlError of class k | 399 GenApiError::Device other
 // effect codes: 1 CtrlOpen 2 StrmOpen 3 GenApiFetch 4 EnableStreaming 5 SetTLParamsLocked(1)
-//   6 SetTLParamsLocked(0) 7 AcquisitionStart 8 AcquisitionStop 9 LoopStart 10 LoopStop
+//   6 SetTLParamsLocked(0)   (5 / 6: bit 0 written as 1 / 0 with the other bits of the register as the device holds them;
+//   or as the host read / wrote them last; a write with other bits is 90 a w v) 7 AcquisitionStart 8 AcquisitionStop 9 LoopStart 10 LoopStop
 //   11 DisableStreaming 12 CtrlClose 13 StrmClose 15 read of the TLParamsLocked register
 //   7 / 19 write of 1 / 0 to the AcquisitionStart register, 8 / 18 write of 1 / 0 to the AcquisitionStop register (the
 //      code carries the VALUE written; any other value: 90 a w v); the device starts / stops acquiring when the value
@@ -53,12 +63,13 @@
 //   32 ctrl opened | 64 strm opened | 128 stream enabled on the device | 256 TLParamsLocked register != 0 |
 //   512 device is acquiring | 1024 mirror register != 0 | 2048 a value of the mirror register is cached |
 //   4096 << k a block of bank slot k is cached (ValueCtxt::get_cache)
+use std::any::Any;
 use std::cell::RefCell;
 use std::io::{BufRead, Write};
 use std::panic::{catch_unwind, AssertUnwindSafe};
 use std::rc::Rc;
 
-use cameleon::genapi::DefaultGenApiCtxt;
+use cameleon::genapi::{DefaultGenApiCtxt, FromXml, GenApiCtxt, SharedDefaultGenApiCtxt};
 use cameleon::payload::PayloadSender;
 use cameleon::{
     Camera, CameleonError, CameraInfo, ControlError, ControlResult, DeviceControl, PayloadStream,
@@ -81,6 +92,10 @@ struct World {
     strm_opened: bool,
     enabled: bool,
     tl: u32,
+    tl_hi: u32, // the bits 1..7 of the TLParamsLocked register (another feature's)
+    tl_seen: u32, // those bits as the host saw them last (read or written): a cached copy may be written back
+    masked: bool, // the description loaded last declares TLParamsLocked as bit 0 of that register (else the
+    // whole register is TLParamsLocked and the other feature does not exist)
     mirror: u32,
     bank: [u32; NMEM],
     stop_value: u32, // CommandValue of AcquisitionStop in the description loaded last
@@ -212,16 +227,18 @@ fn command(name: &str, avail: Option<&str>, reg: &str, value: u32) -> String {
 }
 
 fn xml(variant: usize) -> String {
-    if variant == 27 || variant > 31 {
+    if variant == 27 || variant > 32 {
         return "this is not a GenApi document".into();
     }
     // 28: the conforming description with a <pValueCopy> mirror of TLParamsLocked
     // 29: conforming, the two commands carry <pIsAvailable> backed by device registers
     // 30: TLParamsLocked is a host-side variable, AcquisitionStop has CommandValue 0
     // 31: conforming, AcquisitionStop has CommandValue 0
+    // 32: conforming, TLParamsLocked is a <MaskedIntReg> (bit 0 of the register at A_TL)
     let copy = variant == 28;
     let avail = variant == 29;
     let host = variant == 30;
+    let masked = variant == 32;
     let (t, s, p) = if variant >= 28 { (0, 0, 0) } else { (variant % 3, (variant / 3) % 3, (variant / 9) % 3) };
     let mut x = String::from(
         "<RegisterDescription ModelName=\"M\" VendorName=\"V\" StandardNameSpace=\"None\" \
@@ -239,6 +256,13 @@ fn xml(variant: usize) -> String {
         x += &int_reg("TLParamsLockedMirrorReg", A_MIRROR, "RW");
     } else if host {
         x += "<Integer Name=\"TLParamsLocked\"><Value>0</Value><Min>0</Min><Max>1</Max></Integer>";
+    } else if masked {
+        x += &format!(
+            "<MaskedIntReg Name=\"TLParamsLocked\"><Address>{}</Address><Length>4</Length><AccessMode>RW</AccessMode>\
+             <pPort>Device</pPort><LSB>0</LSB><MSB>0</MSB><Sign>Unsigned</Sign><Endianess>LittleEndian</Endianess>\
+             </MaskedIntReg>",
+            A_TL
+        );
     } else {
         x += &feature("TLParamsLocked", t, false, "TLParamsLockedReg");
     }
@@ -261,7 +285,9 @@ fn xml(variant: usize) -> String {
         x += &feature("AcquisitionStart", s, true, "AcquisitionStartReg");
         x += &feature("AcquisitionStop", p, true, "AcquisitionStopReg");
     }
-    x += &int_reg("TLParamsLockedReg", A_TL, "RW");
+    if !masked {
+        x += &int_reg("TLParamsLockedReg", A_TL, "RW");
+    }
     x += &int_reg("AcquisitionStartReg", A_START, "RW");
     x += &int_reg("AcquisitionStopReg", A_STOP, "RW");
     // a selector-addressed register bank: BankReg[BankSelector] at A_BANK + 4 * BankSelector
@@ -306,7 +332,8 @@ impl DeviceControl for FakeCtrl {
             if let Some(k) = w.op(15) {
                 return Err(cerr(k));
             }
-            let v = w.tl;
+            let v = w.tl | if w.masked { w.tl_hi } else { 0 };
+            w.tl_seen = w.tl_hi;
             buf.copy_from_slice(&v.to_le_bytes());
             w.eff(&[15]);
         } else if address >= A_BANK
@@ -339,9 +366,12 @@ impl DeviceControl for FakeCtrl {
         } else {
             -1
         };
+        // the other bits of the TLParamsLocked register must be written as the device holds them, or as the host read /
+        // wrote them last (a cached copy of the register is legitimately written back)
+        let (hi, seen) = if w.masked { (w.tl_hi as i128, w.tl_seen as i128) } else { (0, 0) };
         let code: i128 = match (address, v) {
-            (A_TL, 1) => 5,
-            (A_TL, 0) => 6,
+            (A_TL, x) if x == hi | 1 || x == seen | 1 => 5,
+            (A_TL, x) if x == hi || x == seen => 6,
             (A_START, 1) => 7,
             (A_START, 0) => 19,
             (A_STOP, 1) => 8,
@@ -354,13 +384,13 @@ impl DeviceControl for FakeCtrl {
             return Err(cerr(k));
         }
         match code {
-            5 => {
-                w.tl = 1;
-                w.eff(&[5]);
-            }
-            6 => {
-                w.tl = 0;
-                w.eff(&[6]);
+            5 | 6 => {
+                w.tl = v as u32 & 1;
+                if w.masked {
+                    w.tl_hi = v as u32 & !1;
+                    w.tl_seen = w.tl_hi;
+                }
+                w.eff(&[code]);
             }
             7 | 19 => {
                 // the CommandValue of AcquisitionStart is 1 in every description
@@ -385,7 +415,13 @@ impl DeviceControl for FakeCtrl {
             }
             _ => {
                 if address == A_TL && data.len() == 4 {
-                    w.tl = v as u32;
+                    if w.masked {
+                        w.tl = v as u32 & 1;
+                        w.tl_hi = v as u32 & !1;
+                        w.tl_seen = w.tl_hi;
+                    } else {
+                        w.tl = v as u32;
+                    }
                 }
                 w.eff(&[90, address as i128, data.len() as i128, v]);
             }
@@ -488,10 +524,41 @@ fn eclass(e: &CameleonError) -> i128 {
     }
 }
 
-type Cam = Camera<FakeCtrl, FakeStrm, DefaultGenApiCtxt>;
+type Cam<C> = Camera<FakeCtrl, FakeStrm, C>;
+
+// what the harness needs of a context type beyond GenApiCtxt + FromXml: a look into the register cache, and (the
+// sharable context only) a second handle
+trait Probe: GenApiCtxt + FromXml {
+    fn is_cached(&self, reg: &str, addr: u64) -> bool;
+    fn second_handle(&self) -> Option<Box<dyn Any>>;
+}
+
+impl Probe for DefaultGenApiCtxt {
+    fn is_cached(&self, reg: &str, addr: u64) -> bool {
+        match self.node_store.id_by_name(reg) {
+            None => false,
+            Some(nid) => self.value_ctxt.get_cache(nid, addr as i64, 4).is_some(),
+        }
+    }
+    fn second_handle(&self) -> Option<Box<dyn Any>> {
+        None
+    }
+}
+
+impl Probe for SharedDefaultGenApiCtxt {
+    fn is_cached(&self, reg: &str, addr: u64) -> bool {
+        match self.node_store.id_by_name(reg) {
+            None => false,
+            Some(nid) => self.value_ctxt.lock().unwrap().get_cache(nid, addr as i64, 4).is_some(),
+        }
+    }
+    fn second_handle(&self) -> Option<Box<dyn Any>> {
+        Some(Box::new(self.clone()))
+    }
+}
 
 // the "params access" call: what an application does to read a feature
-fn params_access(cam: &mut Cam) -> Result<i64, CameleonError> {
+fn params_access<C: Probe>(cam: &mut Cam<C>) -> Result<i64, CameleonError> {
     let mut ctxt = cam.params_ctxt()?;
     let node = ctxt
         .node("TLParamsLocked")
@@ -502,7 +569,7 @@ fn params_access(cam: &mut Cam) -> Result<i64, CameleonError> {
 }
 
 // the "bank access" call: select slot k, read the bank register through the camera's params context
-fn bank_access(cam: &mut Cam, k: i64) -> Result<i64, CameleonError> {
+fn bank_access<C: Probe>(cam: &mut Cam<C>, k: i64) -> Result<i64, CameleonError> {
     let mut ctxt = cam.params_ctxt()?;
     let sel = ctxt
         .node("BankSelector")
@@ -519,7 +586,7 @@ fn bank_access(cam: &mut Cam, k: i64) -> Result<i64, CameleonError> {
 }
 
 // the "params write" call: a variable of the context is written through the camera's params context
-fn user_write(cam: &mut Cam, v: i64) -> Result<i64, CameleonError> {
+fn user_write<C: Probe>(cam: &mut Cam<C>, v: i64) -> Result<i64, CameleonError> {
     let mut ctxt = cam.params_ctxt()?;
     let var = ctxt
         .node("UserVar")
@@ -530,17 +597,14 @@ fn user_write(cam: &mut Cam, v: i64) -> Result<i64, CameleonError> {
     Ok(-1)
 }
 
-fn cached(cam: &Cam, reg: &str, addr: u64) -> bool {
+fn cached<C: Probe>(cam: &Cam<C>, reg: &str, addr: u64) -> bool {
     match cam.ctxt.as_ref() {
         None => false,
-        Some(c) => match c.node_store.id_by_name(reg) {
-            None => false,
-            Some(nid) => c.value_ctxt.get_cache(nid, addr as i64, 4).is_some(),
-        },
+        Some(c) => c.is_cached(reg, addr),
     }
 }
 
-fn run_case(toks: &[&str]) -> Option<Vec<i128>> {
+fn run_case<C: Probe>(toks: &[&str]) -> Option<Vec<i128>> {
     let nums: Vec<i128> = toks.iter().map(|t| t.parse::<i128>()).collect::<Result<_, _>>().ok()?;
     let n = *nums.get(0)? as usize;
     let calls = nums.get(1..1 + n)?.to_vec();
@@ -552,7 +616,8 @@ fn run_case(toks: &[&str]) -> Option<Vec<i128>> {
         model_name: "M".into(),
         serial_number: "S".into(),
     };
-    let mut cam: Cam = Camera::new(FakeCtrl(world.clone()), FakeStrm(world.clone(), None), None, info);
+    let mut held: Vec<Box<dyn Any>> = Vec::new(); // handles of the context kept by the application
+    let mut cam: Cam<C> = Camera::new(FakeCtrl(world.clone()), FakeStrm(world.clone(), None), None, info);
     let mut out: Vec<i128> = vec![0];
     for (ci, &c) in calls.iter().enumerate() {
         {
@@ -567,8 +632,11 @@ fn run_case(toks: &[&str]) -> Option<Vec<i128>> {
                 .filter(|p| p[0] == ci as i128)
                 .map(|p| (p[1], p[2]))
                 .collect();
-            if (20..=51).contains(&c) {
+            if (20..=52).contains(&c) {
                 w.variant = (c - 20) as usize;
+            }
+            if (1000 + 256 * NMEM as i128..1000 + 256 * (NMEM as i128 + 1)).contains(&c) {
+                w.tl_hi = ((c - 1000) % 256) as u32 & 0xFE;
             }
             if (1000..1000 + 256 * NMEM as i128).contains(&c) {
                 // the environment changes the device's memory behind the host's cache
@@ -584,7 +652,17 @@ fn run_case(toks: &[&str]) -> Option<Vec<i128>> {
                 4 => cam.close().map(|_| -1),
                 5 => params_access(&mut cam).map(|v| v as i128),
                 10..=19 => cam.start_streaming((c - 10) as usize).map(|_| -1),
-                20..=51 => cam.load_context().map(|_| -1),
+                20..=52 => cam.load_context().map(|_| -1),
+                81 => {
+                    if let Some(h) = cam.ctxt.as_ref().and_then(|c| c.second_handle()) {
+                        held.push(h);
+                    }
+                    Ok(-1)
+                }
+                82 => {
+                    held.clear();
+                    Ok(-1)
+                }
                 70..=79 => user_write(&mut cam, (c - 70) as i64).map(|v| v as i128),
                 60..=63 => bank_access(&mut cam, (c - 60) as i64).map(|v| v as i128),
                 _ => Ok(-1),
@@ -598,10 +676,11 @@ fn run_case(toks: &[&str]) -> Option<Vec<i128>> {
             }
             Ok(Err(e)) => eclass(&e),
         };
-        if res == 0 && (20..=51).contains(&c) {
+        if res == 0 && (20..=52).contains(&c) {
             // the description the camera holds from now on
             let mut w = world.borrow_mut();
             w.stop_value = stop_value_of((c - 20) as usize);
+            w.masked = c == 52;
         }
         let w = world.borrow();
         out.push(res);
@@ -618,7 +697,7 @@ fn run_case(toks: &[&str]) -> Option<Vec<i128>> {
         if cam.ctxt.is_some() {
             flags |= 2;
         }
-        if cached(&cam, "TLParamsLockedReg", A_TL) {
+        if cached(&cam, "TLParamsLockedReg", A_TL) || cached(&cam, "TLParamsLocked", A_TL) {
             flags |= 4;
         }
         if cached(&cam, "AcquisitionStartReg", A_START) {
@@ -674,7 +753,9 @@ fn main() {
             continue;
         }
         let r = if toks[0] == "cam" {
-            catch_unwind(AssertUnwindSafe(|| run_case(&toks[1..])))
+            catch_unwind(AssertUnwindSafe(|| run_case::<DefaultGenApiCtxt>(&toks[1..])))
+        } else if toks[0] == "cams" {
+            catch_unwind(AssertUnwindSafe(|| run_case::<SharedDefaultGenApiCtxt>(&toks[1..])))
         } else {
             Ok(None)
         };
